@@ -77,6 +77,10 @@ class Adjoint(BaseForm):
         self._hash = None
         self._repr = f"Adjoint({self._form!r})"
 
+    def __reduce__(self):
+        """Reduce for pickling: __new__ needs the operand."""
+        return (Adjoint, (self._form,))
+
     def ufl_function_spaces(self):
         """Get the tuple of function spaces of the underlying form."""
         return self._form.ufl_function_spaces()
